@@ -7,8 +7,8 @@
     an argued allow-list, and that independent replays of recorded block histories agree
     ([replay_monitor_sound] says what the replay monitor's silence means). *)
 From Coq Require Import List String NArith Bool Permutation Sorting.Sorted.
-From Teleport Require Import Base.Bytes Base.Outcome Model.MapLoops Model.DeterminismCheck
-  Proofs.MapLoops Proofs.MapLoopsTable Proofs.DeterminismCheck.
+From Teleport Require Import Base.Bytes Base.Outcome Model.MapLoops Model.ReplayCheck
+  Proofs.MapLoops Proofs.MapLoopsTable Proofs.ReplayCheck.
 Import ListNotations.
 
 (** ** BSC light client *)
@@ -136,7 +136,7 @@ Print Assumptions site_table_certified.
 Theorem replay_monitor_sound :
   forall cases : list (list (list obs)), replay_disagreements cases = [] ->
   forall ref others, In (ref :: others) cases -> forall t, In t others -> t = ref.
-Proof. exact Proofs.DeterminismCheck.replay_monitor_sound. Qed.
+Proof. exact Proofs.ReplayCheck.replay_monitor_sound. Qed.
 Print Assumptions replay_monitor_sound.
 
 Theorem replay_monitor_complete :
@@ -144,7 +144,7 @@ Theorem replay_monitor_complete :
   (forall ref others, In (ref :: others) cases -> forall t, In t others -> t = ref) ->
   (forall c, In c cases -> c <> []) ->
   replay_disagreements cases = [].
-Proof. exact Proofs.DeterminismCheck.replay_monitor_complete. Qed.
+Proof. exact Proofs.ReplayCheck.replay_monitor_complete. Qed.
 Print Assumptions replay_monitor_complete.
 
 (** ** non-vacuity *)
